@@ -464,8 +464,13 @@ func c01Widths(p *Prog, r *Report) {
 			n++
 			w, _ := constInt(c.Call.Args[3])
 			rs := p.RelsAt(rm, c)
-			spelled := fmt.Sprintf("\"uint%d\") == true", w)
-			r.Check("R01b", fmt.Sprintf("conversion spelled uint%d converts to %d bits", w, w), instrPos(in), hasFactContaining(rs, spelled),
+			spelled := false
+			for _, nm := range p.resolvedBuiltinNames(rs) {
+				if nm == fmt.Sprintf("uint%d", w) {
+					spelled = true
+				}
+			}
+			r.Check("R01b", fmt.Sprintf("conversion spelled uint%d converts to %d bits", w, w), instrPos(in), spelled,
 				fmt.Sprintf("integerConversion(…, %d) is reached without the fact that the callee is the predeclared uint%d", w, w))
 		})
 		if n < 3 {
